@@ -807,6 +807,21 @@ func (dsc *dataStoreCommand) del(keyNames []string, reclaim bool) (output respVa
 	return
 }
 
+// counts the keys that exist from a client's point of view: expired keys (and
+// unlinked keys, which are marked expired) whose objects have not been
+// reclaimed yet do not count
+func (dsc *dataStoreCommand) liveKeyCount() (count int) {
+	dsc.lock()
+	defer dsc.unlock()
+
+	for i := dsc.ds.data.createIterator(); i.next(); {
+		if !i.value.(*storeKey).isExpiredUnlocked() {
+			count++
+		}
+	}
+	return
+}
+
 func (dsc *dataStoreCommand) exists(keyNames []string) (output respValue) {
 	dsc.lock()
 	defer dsc.unlock()
